@@ -968,6 +968,7 @@ def run(ctx: Ctx):
         C11_bestfirst.run_part(ctx)
     if (COQ / "Props" / "C11_bestfirst.v").exists():
         ctx.proof_step(["C11"], props_file="Props/C11_bestfirst.v")
+    if (COQ / "Props" / "C11_deep.v").exists(): ctx.proof_step(["C11"], props_file="Props/C11_deep.v")
 
 
 def replay(obj):
